@@ -726,3 +726,41 @@ macro_rules! fail {
         return Err($crate::runner::Failure::new(format!($($arg)*), $case))
     };
 }
+
+// ------------------------------------------------------------------------------------------------
+// libFuzzer front end: the input bytes are the tape (two bytes per cell, little endian)
+
+thread_local! {
+    static FUZZ_CTX: std::cell::RefCell<Option<Ctx>> = const { std::cell::RefCell::new(None) };
+}
+
+/// run `f` with a long-lived per-thread Ctx (statistics are irrelevant while fuzzing); panics on a violation so that
+/// libFuzzer saves the input. Known findings are tolerated exactly as in the checks; harness faults are ignored.
+pub fn fuzz_with(f: impl FnOnce(&mut Ctx) -> Verdict) {
+    FUZZ_CTX.with(|c| {
+        let mut g = c.borrow_mut();
+        if g.is_none() {
+            install_panic_hook();
+            *g = Some(Ctx::new(Tier::Thorough, 0));
+        }
+        let ctx = g.as_mut().unwrap();
+        // keep memory bounded
+        if ctx.nontrivial.len() > 100_000 {
+            ctx.nontrivial.clear();
+            ctx.samples.clear();
+        }
+        let r = run_guarded(|| f(ctx), || Value::Null);
+        if let Err(fail) = r {
+            if !fail.harness_fault {
+                drop(g);
+                panic!("VIOLATION {} case {}", fail.detail, serde_json::to_string(&fail.case).unwrap_or_default());
+            }
+        }
+    });
+}
+
+pub fn fuzz_tape(prop: &'static PropDef, data: &[u8]) {
+    let tape: Vec<u16> = data.chunks(2).map(|c| u16::from_le_bytes([c[0], *c.get(1).unwrap_or(&0)])).collect();
+    let run = prop.run_tape;
+    fuzz_with(|ctx| run(&tape, ctx));
+}
